@@ -91,16 +91,16 @@ def struct_pack(I, st: StructObj, vals):
         for _, v, w in parts:
             out += (v % (2 ** (8 * w))).to_bytes(w, "big" if st.order == ">" else "little")
         return out
-    seq = []
+    from .layout import LB, UInt
+    segs = []
     for tag, v, w in parts:
         e = v if tag == "sym" else z3.IntVal(v)
+        if st.order != ">" and w > 1:
+            raise Unsupported("little-endian symbolic struct.pack")
         if tag == "sym" and not I.valid(e >= 0):
             e = z3.If(e >= 0, e, e + 2 ** (8 * w))      # two's complement of signed fields
-        bs = [z3.Unit((e / (256 ** i)) % 256) for i in range(w)]   # little-endian order
-        if st.order == ">":
-            bs.reverse()
-        seq.extend(bs)
-    return SV(z3.Concat(seq) if len(seq) > 1 else seq[0], "bytes")
+        segs.append(UInt(w, e))
+    return LB(segs)
 
 
 def struct_unpack(I, st: StructObj, data):
@@ -178,7 +178,7 @@ def b_len(I, args, kw):
     raise Unsupported(f"len of {type(v).__name__}")
 
 
-_TYPE_KINDS = {"int": ("int", "bool"), "bool": ("bool",), "str": ("str",), "bytes": ("bytes",), "float": ("real",)}
+_TYPE_KINDS = {"int": ("int", "bool"), "bool": ("bool",), "str": ("str", "astr"), "bytes": ("bytes",), "float": ("real",)}
 
 
 def isinstance_one(I, v, t):
@@ -210,6 +210,8 @@ def isinstance_one(I, v, t):
             if isinstance(v, Env):
                 return _env_isinstance(I, v, name, None)
             return False
+        if name.split(".")[-1] == "UID" and (hasattr(v, "is_uid") or isinstance(v, str)):
+            return bool(getattr(v, "is_uid", False))
         if name in ("list", "tuple", "dict", "set"):
             py = {"list": list, "tuple": tuple, "dict": dict, "set": set}[name]
             if isinstance(v, Env):
@@ -535,6 +537,17 @@ def b_next(I, args, kw):
     raise Unsupported("next() on " + type(g).__name__)
 
 
+class SliceVal:
+    def __init__(self, lo, hi, step=None):
+        self.lo, self.hi, self.step = lo, hi, step
+
+
+def b_slice(I, args, kw):
+    if len(args) == 1:
+        return SliceVal(None, args[0])
+    return SliceVal(*args)
+
+
 class ListIter:
     def __init__(self, xs):
         self.xs = list(xs)
@@ -685,7 +698,7 @@ BUILTINS = {
     "any": b_any, "all": b_all, "next": b_next, "iter": b_iter, "type": b_type, "callable": b_callable,
     "abs": b_abs, "sum": b_sum, "float": b_float, "repr": b_repr, "issubclass": b_issubclass,
     "print": b_print, "id": b_id, "reversed": b_reversed, "ord": b_ord, "hex": b_hex, "format": b_format,
-    "set": b_set, "frozenset": b_set,
+    "set": b_set, "frozenset": b_set, "slice": b_slice,
 }
 
 
@@ -749,6 +762,12 @@ def call_ext(I, f: Ext, args, kw, node=None):
         raise Unsupported("unicodedata.category on symbolic character")
     if name in ("copy.deepcopy", "deepcopy", "copy.copy"):
         raise Unsupported("deepcopy")
+    for pre in I.cfg.ext_opaque:
+        if name == pre or name.startswith(pre + "."):
+            I.used_models.add(f"{pre}.* (opaque: traced, unconstrained result)")
+            r = I.opaque(f"ret({name})", nonnull=True)
+            I.trace.append(Ev(f"ext:{name}", args, kw, r))
+            return r
     raise Unsupported(f"external call {name} has no model")
 
 
